@@ -44,6 +44,17 @@ def case(draw, big=False):
          # object reuse: a second rate for the same object and length; contents scaled in place afterwards
          "fs2": draw(st.sampled_from([None, 1.0, 2.0, 4.0, 0.8])),
          "modify_in_place": draw(st.sampled_from([None, "setitem", "multiply"]))}
+    if c["L"] <= 80 and draw(st.integers(0, 3)) == 0:
+        # a spectrum that already lives exactly on the FFT bins of the requested record (as produced by resampling once)
+        nfft_ = (c["L"] // 2) * 2
+        c["f"] = [float(x) for x in np.linspace(0, c["fs"] / 2, nfft_ // 2, endpoint=False)]
+        nf = len(c["f"])
+        if nf >= 3:
+            e = (e + [1.0] * nf)[:nf]
+            c["e"] = e
+            c["on_fft_bins"] = True
+        else:
+            c["f"] = f
     if two_d:
         nd = draw(st.integers(8, 72))
         c["nd"] = nd
@@ -159,6 +170,8 @@ def run(c):
                if c["two_d"] and c["bin"] == c["nd"] - 1 and (c["t0"] != 0.0 or c.get("labels") == "pm180") else [])
     classes += ["2d" if c["two_d"] else "1d", "odd_L" if L % 2 else "even_L",
                "L>=600" if L >= 600 else "L<600"]
+    if c.get("on_fft_bins"):
+        classes.append("spectrum_already_on_the_fft_bins")
     if fs2 and fs2 != fs:
         classes.append("same_object_second_sampling_rate")
     if c.get("modify_in_place"):
